@@ -19,7 +19,7 @@ REPO = os.environ.get("VERIF_REPO", "/repo")
 class Ob:
     """one proof obligation"""
 
-    def __init__(self, id, fn, shims=None, encoded=(), bounds="", outside="", budget_s=300, max_paths=400000, max_decisions=600, kind="symx", replay_fn=None, stubs=(), setup=None, env=None):
+    def __init__(self, id, fn, shims=None, encoded=(), bounds="", outside="", budget_s=300, max_paths=400000, max_decisions=600, kind="symx", replay_fn=None, stubs=(), setup=None, env=None, prepare=None):
         self.id = id
         self.fn = fn
         self.shims = shims  # callable -> {module: [names]}
@@ -33,6 +33,7 @@ class Ob:
         self.replay_fn = replay_fn  # custom: callable(inputs) -> dict(reproduced=..)
         self.stubs = list(stubs)
         self.setup = setup  # optional context-manager factory wrapping exploration (extra stubs)
+        self.prepare = prepare  # callable run once before shims are installed (and before replay): builds concrete templates
         self.env = env  # context-manager factory for environment stubs that apply to exploration AND replay (ideal QPACK, ideal crypto)
 
 
@@ -65,6 +66,8 @@ def _run_one(idx):
             r.setdefault("infeasible", 0)
             r["status"] = "violation" if r["violations"] else ("inconclusive" if r["inconclusive"] else "holds")
         else:
+            if ob.prepare is not None:
+                ob.prepare()
             spec = ob.shims() if ob.shims else {}
             cm = symx.shimmed(spec)
             import contextlib
@@ -90,6 +93,7 @@ def _replay_one(args):
             return ob.replay_fn(inputs)
         if ob.replay_fn is not None:
             return ob.replay_fn(inputs)
+        symx.E.mode = "replay"
         if ob.env is not None:
             with ob.env():
                 return symx.replay(ob.fn, inputs or {})
